@@ -58,7 +58,10 @@ PROBES = {"same_size_edit": 1, "racy_same_granule_edit": 1,
           "directory_became_file": 1, "type_change_same_bytes": 1,
           "reset_hard": 1, "add_all": 1, "reset_mixed": 1,
           "staged_new_became_directory": 1,
-          "directory_became_symlink": 1}
+          "directory_became_symlink": 1,
+          "head_bytes_put_back_by_hand": 1,
+          "reset_hard_onto_matching_file": 1,
+          "file_rewritten_during_add": 1}
 MIN_BUDGET = 200
 
 NAMES = [b"a.txt", b"b", b"dir/c.txt", b"dir/sub/d", b"x y.txt",
@@ -122,7 +125,7 @@ def gen_plan(seed, tier):
              "rewrite_same", "dir_to_file", "to_link_same", "to_file_same",
              "reset_hard", "reset_hard", "add_all", "reset_mixed",
              "dir_to_link", "new_staged_dir_reset", "untracked_mixed_dir",
-             "revert_to_head", "stage_revert_reset"]),
+             "revert_to_head", "stage_revert_reset", "edit_during_stage"]),
             "i": rng.randrange(100), "c": rng.randrange(10**6)})
     mode = rng.choice(["normal", "normal", "skewed", "racy", "racy"])
     gran = rng.choice([1, 1000, 4 * 10**6, 10**9, 2 * 10**9])
@@ -553,6 +556,53 @@ def run_plan(plan):
                         m.index[p] = m.head[p]
                         m.wd[p] = ("file", headc, m.head[p][0] == 0o100755)
                         tick("after_index_write")
+                elif op == "edit_during_stage":
+                    # a second process (an editor saving) rewrites the file
+                    # while add is between reading it and writing the index:
+                    # the simulator runs it at add's first object-store write
+                    files = [q for q in present if m.wd[q][0] == "file" and
+                             not any(x != q and (x.startswith(q + b"/") or
+                                                 q.startswith(x + b"/"))
+                                     for x in m.index)]
+                    p = pick(files)
+                    if p is None:
+                        continue
+                    new1 = m.wd[p][1] + b"being staged %d\n" % ed["c"]
+                    new2 = new1 + b"saved by the editor meanwhile %d\n" % \
+                        ed["c"]
+                    with open(fspath(p), "wb") as f:
+                        f.write(new1)
+                    m.wd[p] = ("file", new1, m.wd[p][2])
+                    tick()
+                    fired = [False]
+
+                    def editor(fs_, call, rel, n, p=p, new2=new2):
+                        if fired[0] or "/.git/objects/" not in rel:
+                            return
+                        fired[0] = True
+                        sim.clock.advance(gran + 1)
+                        fd = R.os_open(fspath(p), os.O_WRONLY | os.O_TRUNC)
+                        try:
+                            R.write(fd, new2)
+                        finally:
+                            R.close(fd)
+                        fs.touch_path(fspath(p))
+                        sim.clock.advance(gran + 1)
+                    fs.boundary_hook = editor
+                    try:
+                        r.get_worktree().stage([os.fsdecode(p)])
+                    except Exception as e:  # noqa: BLE001
+                        viol(f"stage-raised/{type(e).__name__}",
+                             f"{label} {p!r}: {e!r}")
+                        stopped[0] = True
+                        break
+                    finally:
+                        fs.boundary_hook = None
+                    m.index[p] = m.wd_entry(p)
+                    if fired[0]:
+                        stats["probe:file_rewritten_during_add"] = 1
+                        m.wd[p] = ("file", new2, m.wd[p][2])
+                    tick("after_index_write")
                 elif op == "touch":
                     p = pick(present)
                     if p is None or m.wd[p][0] != "file":
